@@ -773,14 +773,18 @@ def is_nontrivial(case) -> bool:
 
 
 def load_known_d(chk: Check):
-    """known_findings.json is assembled by the lead from known.d/; read this property's entries directly"""
+    """known_findings.json is assembled by the lead from known.d/; this property's own file is authoritative (an entry
+    recorded as fixed there must not linger as known)"""
     f = VERIF / "known.d" / f"{PROP}.json"
     if f.exists():
+        chk.known = {"known": {}, "fixed": {}}
         for e in json.loads(f.read_text()).get("findings", []):
-            if e.get("property") == PROP and e.get("status") == "known":
-                chk.known["known"].setdefault(e["key"], e)
-            elif e.get("property") == PROP and str(e.get("status", "")).startswith("fixed"):
-                chk.known["fixed"].setdefault(e["key"], e)
+            if e.get("property") != PROP:
+                continue
+            if e.get("status") == "known":
+                chk.known["known"][e["key"]] = e
+            elif str(e.get("status", "")).startswith("fixed"):
+                chk.known["fixed"][e["key"]] = e
 
 
 def run(tier: str, seed: int, replay: str | None = None) -> int:
